@@ -197,3 +197,60 @@ func H_C20_playlist() {
 		vAssert(vEffect("env:net/http.NotFound") == 0, "a directory that holds files is found")
 	}
 }
+
+var vDirRows []path.Path
+
+// vPathUrlRec stands in for pathUrl under H_C20_http_dirs: torrentDir calls it once per directory
+// row (file rows are recorded by vFileRow and do not get here), so it records the directories
+// the page names.
+func vPathUrlRec(p path.Path) string {
+	vDirRows = append(vDirRows, append(path.Path(nil), p...))
+	return "x"
+}
+
+var vLN3 = [][]string{{"h0.d", "h0.c0", "h0.c1", "h0.c2"}, {"h1.d", "h1.c0", "h1.c1", "h1.c2"}, {"h2.d", "h2.c0", "h2.c1", "h2.c2"}}
+
+// H_C20_http_dirs: the sub-directory rows of the HTML view of a multi-file torrent (<= 3 files,
+// paths of 1..3 components over {a,b}, listed from the root): the directories named are exactly
+// the directories that hold (directly or further down) a listed file - every proper non-empty
+// prefix of a file's path - and no directory is named twice.
+func H_C20_http_dirs() {
+	nf := vParam("files")
+	var files []tor.Torfile
+	for i := 0; i < nf; i++ {
+		n := vChoose(vLN3[i][0], 1, 3)
+		var p path.Path
+		for k := 0; k < n; k++ {
+			p = append(p, vAB[vChoose(vLN3[i][1+k], 0, 1)])
+		}
+		files = append(files, tor.Torfile{Path: p, Length: 10})
+	}
+	t := tor.VRegister(make([]byte, 20), "t", files, int64(10*nf)+1)
+	vDead = false
+	vRows, vDirRows = nil, nil
+	torrentEntry(vLiveContext(), &vRW{}, t, nil)
+	vReach("listed")
+	for i, d := range vDirRows {
+		ok := false
+		for _, f := range t.Files {
+			if len(d) > 0 && len(d) < len(f.Path) && f.Path[:len(d)].Equal(d) {
+				ok = true
+			}
+		}
+		vAssert(ok, "a directory row names a directory that holds a file of the torrent")
+		for j := 0; j < i; j++ {
+			vAssert(!vDirRows[j].Equal(d), "no directory is named twice")
+		}
+	}
+	for _, f := range t.Files {
+		for k := 1; k < len(f.Path); k++ {
+			n := 0
+			for _, d := range vDirRows {
+				if d.Equal(f.Path[:k]) {
+					n++
+				}
+			}
+			vAssert(n == 1, "every directory above a file is named exactly once")
+		}
+	}
+}
